@@ -1,1 +1,222 @@
-// harnesses for unit deadline_codec (mounted under cfg(kani) by the hook in /repo)
+//! K2 — the deadline wire codec `context::absolute_to_relative_time` (tarpc/src/context.rs).
+//! Mounted as `crate::context::verif_kani` under cfg(kani); sees the private module.
+use super::absolute_to_relative_time as codec;
+use super::ten_seconds_from_now;
+use crate::verif_kani_support::*;
+use serde::de::{self, DeserializeSeed, Deserializer, SeqAccess, Visitor};
+use serde::ser::{self, Impossible, SerializeStruct, Serializer};
+use std::fmt;
+use std::time::{Duration, Instant};
+
+#[derive(Debug)]
+pub struct E;
+impl fmt::Display for E {
+    fn fmt(&self, _: &mut fmt::Formatter) -> fmt::Result {
+        Ok(())
+    }
+}
+impl std::error::Error for E {}
+impl ser::Error for E {
+    fn custom<T: fmt::Display>(_: T) -> Self {
+        E
+    }
+}
+impl de::Error for E {
+    fn custom<T: fmt::Display>(_: T) -> Self {
+        E
+    }
+}
+
+/// Records a `Duration` written through serde (struct Duration { secs: u64, nanos: u32 }).
+#[derive(Clone, Copy, PartialEq, Eq, Debug)]
+pub struct Written {
+    pub secs: Option<u64>,
+    pub nanos: Option<u32>,
+    pub other: bool,
+}
+pub struct RecDur;
+pub struct RecFields(Written);
+pub struct FieldRec;
+#[derive(Clone, Copy)]
+pub enum Prim {
+    U64(u64),
+    U32(u32),
+    Other,
+}
+macro_rules! fother { ($($f:ident($t:ty)),*) => { $(fn $f(self, _: $t) -> Result<Prim, E> { Ok(Prim::Other) })* } }
+impl Serializer for FieldRec {
+    type Ok = Prim;
+    type Error = E;
+    type SerializeSeq = Impossible<Prim, E>;
+    type SerializeTuple = Impossible<Prim, E>;
+    type SerializeTupleStruct = Impossible<Prim, E>;
+    type SerializeTupleVariant = Impossible<Prim, E>;
+    type SerializeMap = Impossible<Prim, E>;
+    type SerializeStruct = Impossible<Prim, E>;
+    type SerializeStructVariant = Impossible<Prim, E>;
+    fn serialize_u64(self, v: u64) -> Result<Prim, E> {
+        Ok(Prim::U64(v))
+    }
+    fn serialize_u32(self, v: u32) -> Result<Prim, E> {
+        Ok(Prim::U32(v))
+    }
+    fother!(serialize_bool(bool), serialize_i8(i8), serialize_i16(i16), serialize_i32(i32), serialize_i64(i64), serialize_u8(u8), serialize_u16(u16), serialize_f32(f32), serialize_f64(f64), serialize_char(char), serialize_str(&str), serialize_bytes(&[u8]));
+    fn serialize_none(self) -> Result<Prim, E> { Ok(Prim::Other) }
+    fn serialize_some<T: ?Sized + ser::Serialize>(self, _: &T) -> Result<Prim, E> { Ok(Prim::Other) }
+    fn serialize_unit(self) -> Result<Prim, E> { Ok(Prim::Other) }
+    fn serialize_unit_struct(self, _: &'static str) -> Result<Prim, E> { Ok(Prim::Other) }
+    fn serialize_unit_variant(self, _: &'static str, _: u32, _: &'static str) -> Result<Prim, E> { Ok(Prim::Other) }
+    fn serialize_newtype_struct<T: ?Sized + ser::Serialize>(self, _: &'static str, _: &T) -> Result<Prim, E> { Ok(Prim::Other) }
+    fn serialize_newtype_variant<T: ?Sized + ser::Serialize>(self, _: &'static str, _: u32, _: &'static str, _: &T) -> Result<Prim, E> { Ok(Prim::Other) }
+    fn serialize_seq(self, _: Option<usize>) -> Result<Self::SerializeSeq, E> { Err(E) }
+    fn serialize_tuple(self, _: usize) -> Result<Self::SerializeTuple, E> { Err(E) }
+    fn serialize_tuple_struct(self, _: &'static str, _: usize) -> Result<Self::SerializeTupleStruct, E> { Err(E) }
+    fn serialize_tuple_variant(self, _: &'static str, _: u32, _: &'static str, _: usize) -> Result<Self::SerializeTupleVariant, E> { Err(E) }
+    fn serialize_map(self, _: Option<usize>) -> Result<Self::SerializeMap, E> { Err(E) }
+    fn serialize_struct(self, _: &'static str, _: usize) -> Result<Self::SerializeStruct, E> { Err(E) }
+    fn serialize_struct_variant(self, _: &'static str, _: u32, _: &'static str, _: usize) -> Result<Self::SerializeStructVariant, E> { Err(E) }
+}
+impl SerializeStruct for RecFields {
+    type Ok = Written;
+    type Error = E;
+    fn serialize_field<T: ?Sized + ser::Serialize>(&mut self, key: &'static str, value: &T) -> Result<(), E> {
+        let p = value.serialize(FieldRec)?;
+        let is_secs = key.len() == 4; // "secs" vs "nanos": compared by length to keep CBMC off string loops
+        match (is_secs, p) {
+            (true, Prim::U64(v)) if self.0.secs.is_none() => self.0.secs = Some(v),
+            (false, Prim::U32(v)) if self.0.nanos.is_none() => self.0.nanos = Some(v),
+            _ => self.0.other = true,
+        }
+        Ok(())
+    }
+    fn end(self) -> Result<Written, E> {
+        Ok(self.0)
+    }
+}
+macro_rules! dother { ($($f:ident($t:ty)),*) => { $(fn $f(self, _: $t) -> Result<Written, E> { Err(E) })* } }
+impl Serializer for RecDur {
+    type Ok = Written;
+    type Error = E;
+    type SerializeSeq = Impossible<Written, E>;
+    type SerializeTuple = Impossible<Written, E>;
+    type SerializeTupleStruct = Impossible<Written, E>;
+    type SerializeTupleVariant = Impossible<Written, E>;
+    type SerializeMap = Impossible<Written, E>;
+    type SerializeStruct = RecFields;
+    type SerializeStructVariant = Impossible<Written, E>;
+    dother!(serialize_bool(bool), serialize_i8(i8), serialize_i16(i16), serialize_i32(i32), serialize_i64(i64), serialize_u8(u8), serialize_u16(u16), serialize_u32(u32), serialize_u64(u64), serialize_f32(f32), serialize_f64(f64), serialize_char(char), serialize_str(&str), serialize_bytes(&[u8]));
+    fn serialize_none(self) -> Result<Written, E> { Err(E) }
+    fn serialize_some<T: ?Sized + ser::Serialize>(self, _: &T) -> Result<Written, E> { Err(E) }
+    fn serialize_unit(self) -> Result<Written, E> { Err(E) }
+    fn serialize_unit_struct(self, _: &'static str) -> Result<Written, E> { Err(E) }
+    fn serialize_unit_variant(self, _: &'static str, _: u32, _: &'static str) -> Result<Written, E> { Err(E) }
+    fn serialize_newtype_struct<T: ?Sized + ser::Serialize>(self, _: &'static str, _: &T) -> Result<Written, E> { Err(E) }
+    fn serialize_newtype_variant<T: ?Sized + ser::Serialize>(self, _: &'static str, _: u32, _: &'static str, _: &T) -> Result<Written, E> { Err(E) }
+    fn serialize_seq(self, _: Option<usize>) -> Result<Self::SerializeSeq, E> { Err(E) }
+    fn serialize_tuple(self, _: usize) -> Result<Self::SerializeTuple, E> { Err(E) }
+    fn serialize_tuple_struct(self, _: &'static str, _: usize) -> Result<Self::SerializeTupleStruct, E> { Err(E) }
+    fn serialize_tuple_variant(self, _: &'static str, _: u32, _: &'static str, _: usize) -> Result<Self::SerializeTupleVariant, E> { Err(E) }
+    fn serialize_map(self, _: Option<usize>) -> Result<Self::SerializeMap, E> { Err(E) }
+    fn serialize_struct(self, _: &'static str, _: usize) -> Result<RecFields, E> {
+        Ok(RecFields(Written { secs: None, nanos: None, other: false }))
+    }
+    fn serialize_struct_variant(self, _: &'static str, _: u32, _: &'static str, _: usize) -> Result<Self::SerializeStructVariant, E> { Err(E) }
+}
+
+/// Deserializer handing over one Duration the way a binary codec does: as the sequence
+/// (secs: u64, nanos: u32).
+pub struct DeDur(pub u64, pub u32);
+struct Seq2 { secs: u64, nanos: u32, i: u8 }
+impl<'de> SeqAccess<'de> for Seq2 {
+    type Error = E;
+    fn next_element_seed<T: DeserializeSeed<'de>>(&mut self, seed: T) -> Result<Option<T::Value>, E> {
+        use serde::de::IntoDeserializer;
+        self.i += 1;
+        match self.i {
+            1 => seed.deserialize(IntoDeserializer::<E>::into_deserializer(self.secs)).map(Some),
+            2 => seed.deserialize(IntoDeserializer::<E>::into_deserializer(self.nanos)).map(Some),
+            _ => Ok(None),
+        }
+    }
+}
+impl<'de> Deserializer<'de> for DeDur {
+    type Error = E;
+    fn deserialize_any<V: Visitor<'de>>(self, v: V) -> Result<V::Value, E> {
+        v.visit_seq(Seq2 { secs: self.0, nanos: self.1, i: 0 })
+    }
+    serde::forward_to_deserialize_any! {
+        bool i8 i16 i32 i64 i128 u8 u16 u32 u64 u128 f32 f64 char str string bytes byte_buf option unit
+        unit_struct newtype_struct seq tuple tuple_struct map struct enum identifier ignored_any
+    }
+}
+
+/// C07: the duration written for a deadline D at time now1 is the saturating difference
+/// D - now1 (zero for a deadline that already passed -- "now", not an error).
+#[kani::proof]
+#[kani::stub(std::time::Instant::now, crate::verif_kani_support::fake_now)]
+#[kani::unwind(3)] // std's Timespec::sub_timespec recurses once; serde seq visitors loop over 2 fields
+fn k2_deadline_written_as_remaining_time() {
+    let now1 = any_instant();
+    let d = any_instant();
+    set_now(now1);
+    let w = codec::serialize(&d, RecDur).unwrap();
+    kani::cover!(gt(d, now1), "reachable: future deadline");
+    assert!(!w.other && w.secs.is_some() && w.nanos.is_some(), "C07: written as Duration {secs: u64, nanos: u32}");
+    let wrote = (w.secs.unwrap(), w.nanos.unwrap());
+    let expect = if ge(d, now1) { diff(d, now1) } else { (0, 0) };
+    assert!(wrote == expect, "C07: written duration == deadline - now (saturating)");
+}
+
+/// C16 + C07: decoding is total -- any (secs, nanos) a peer sends yields a deadline, never a
+/// panic -- and for durations that fit the clock it is exactly now2 + duration.
+#[kani::proof]
+#[kani::stub(std::time::Instant::now, crate::verif_kani_support::fake_now)]
+#[kani::unwind(3)] // std's Timespec::sub_timespec recurses once; serde seq visitors loop over 2 fields
+fn k2_deadline_decode_total_and_shifted() {
+    let now2 = any_instant();
+    set_now(now2);
+    let secs: u64 = kani::any();
+    let nanos: u32 = kani::any();
+    let r = codec::deserialize(DeDur(secs, nanos));
+    kani::cover!(r.is_ok() && secs > (1u64 << 62), "reachable: huge duration decodes");
+    if let Ok(deadline) = r {
+        assert!(ge(deadline, now2), "C07: decoded deadline is never earlier than now");
+        if secs < (1u64 << 41) && nanos < 1_000_000_000 {
+            assert!(instant_parts(deadline) == plus(now2, (secs, nanos)), "C07: decoded deadline == now + duration");
+        }
+    }
+}
+
+/// C07: the end-to-end shift law: a deadline D written at now1 and read at now2 >= now1 becomes
+/// D' with D' >= D, D' - D == transit (now2 - now1) when D >= now1, and D' == now2 when D < now1.
+#[kani::proof]
+#[kani::stub(std::time::Instant::now, crate::verif_kani_support::fake_now)]
+#[kani::unwind(3)] // std's Timespec::sub_timespec recurses once; serde seq visitors loop over 2 fields
+fn k2_deadline_shift_law() {
+    let now1 = any_instant();
+    let now2 = any_instant();
+    let d = any_instant();
+    kani::assume(ge(now2, now1));
+    set_now(now1);
+    let w = codec::serialize(&d, RecDur).unwrap();
+    set_now(now2);
+    let d2 = codec::deserialize(DeDur(w.secs.unwrap(), w.nanos.unwrap())).unwrap();
+    kani::cover!(gt(d, now1) && gt(now2, now1), "reachable");
+    if ge(d, now1) {
+        assert!(ge(d2, d), "C07: never earlier than the caller's deadline");
+        assert!(diff(d2, d) == diff(now2, now1), "C07: shifted by exactly the transit time");
+    } else {
+        assert!(instant_parts(d2) == instant_parts(now2), "C07: a passed deadline arrives as now");
+    }
+}
+
+/// C07: the default deadline is 10 s from now.
+#[kani::proof]
+#[kani::stub(std::time::Instant::now, crate::verif_kani_support::fake_now)]
+#[kani::unwind(3)] // std's Timespec::sub_timespec recurses once; serde seq visitors loop over 2 fields
+fn k2_default_deadline_ten_seconds() {
+    let now = any_instant();
+    set_now(now);
+    let d = ten_seconds_from_now();
+    assert!(instant_parts(d) == plus(now, (10, 0)), "C07: documented 10 s default");
+}
